@@ -191,10 +191,38 @@ Theorem update_refuted : exists ds u st',
 Proof. exact update_refuted_l. Qed.
 Print Assumptions update_refuted.
 
-Theorem select_refuted : forall c, 1 <= c <= 8 ->
+(** the open classes S2, S3, S4, S5, S6, S8 are real *)
+Theorem select_refuted : forall c, In c [2; 3; 4; 5; 6; 8] ->
   exists n ds q, k_class_g n ds q = c /\ select_agrees n ds q = false.
 Proof. exact select_refuted_l. Qed.
 Print Assumptions select_refuted.
+
+(** repaired: DISTINCT (S1, c4f453a) and the nulls of OPTIONAL (S7, dfd360c) *)
+Theorem distinct_tbl_spec : forall t t', distinct_tbl t = Done t' ->
+  t_cols t' = t_cols t /\ NoDup (all_live (t_chunks t')) /\
+  (forall r, In r (all_live (t_chunks t')) <-> In r (all_live (t_chunks t))).
+Proof. exact distinct_tbl_spec_l. Qed.
+Print Assumptions distinct_tbl_spec.
+
+Theorem distinct_pre_refuted : exists n ds q,
+  q_distinct q = true /\ select_agrees_pre n ds q = false /\ select_agrees n ds q = true.
+Proof. exact distinct_pre_refuted_l. Qed.
+Print Assumptions distinct_pre_refuted.
+
+Theorem build_spec : forall rs, all_live (build rs) = rs.
+Proof. exact build_spec_l. Qed.
+Print Assumptions build_spec.
+
+Theorem build_pre_refuted : exists rs, all_live (build_pre rs) <> rs.
+Proof. exact build_pre_refuted_l. Qed.
+Print Assumptions build_pre_refuted.
+
+Example optional_null_witness_now_agrees :
+  select_agrees 3 [Triple (Iri [97]) (Iri [112]) (Iri [98]); Triple (Iri [98]) (Iri [112]) (Iri [99]);
+                   Triple (Iri [99]) (Iri [112]) (Iri [97]); Triple (Iri [98]) (Iri [110]) (lit_int [53])]
+    (Query false ProjStar (POpt (PBgp [TPat (TVar 0) (TConst (Iri [112])) (TVar 1)]) (PBgp [TPat (TVar 0) (TConst (Iri [110])) (TVar 2)]) None) [] None None)
+  = true.
+Proof. exact optional_null_witness_l. Qed.
 
 (** the engine evaluates a basic graph pattern to exactly the solutions of the algebra, after any
     history of the store, outside the classes S2 (a variable twice in a triple pattern), S3 (two
